@@ -102,6 +102,7 @@ Export ==
       se == Parse(st)
   IN PrintT(ToJson([doc |-> doc, size |-> DocSize(doc), depth |-> SchemaDepth(doc),
                     parse |-> pk, uns |-> HasUnsupported(doc),
+                    elem |-> IF ok THEN e ELSE ElementE,
                     strip |-> st, stripParse |-> IF IsErr(se) THEN se.name ELSE "ok",
                     allowed |-> allowed, calls |-> calls, np |-> np, dobs |-> dobs,
                     dconv |-> dconv, edef |-> edef,
